@@ -275,6 +275,12 @@ Fixpoint nl_scan (run : nat) (rest : bytes) : option bytes :=
       end
   end.
 
+Lemma nl_scan_cons2 run c d t :
+  nl_scan run (c :: d :: t) =
+  if c =? 46 then (if Nat.even run then Some (d :: t) else nl_scan O (d :: t))
+  else nl_scan (if c =? 92 then S run else O) (d :: t).
+Proof. reflexivity. Qed.
+
 Lemma nl_loop2_spec fuel s off i e : forall lf j, (j <= length s)%nat -> (j < lf)%nat ->
   go_NextLabel_loop2 fuel lf s off i e (Z.of_nat j - 1)%Z =
   (GoNext, (s, off, i, e, (Z.of_nat j - 1 - Z.of_nat (run_before s j))%Z)).
@@ -315,9 +321,11 @@ Proof.
   cbn [go_NextLabel_loop1]. unfold go_len.
   destruct (Z.ltb (Z.of_nat i) (Z.of_nat (length s) - 1)) eqn:E.
   - apply Z.ltb_lt in E.
-    rewrite (skipn_nth_cons 0 s i) by lia. rewrite (skipn_nth_cons 0 s (S i)) by lia.
+    assert (Hsk : exists d t, skipn (S i) s = d :: t).
+    { exists (nth (S i) s 0), (skipn (S (S i)) s). apply skipn_nth_cons. lia. }
+    destruct Hsk as [d [t Hr]].
+    rewrite (skipn_nth_cons 0 s i) by lia. rewrite Hr, nl_scan_cons2, <- Hr.
     rewrite go_idx_nth by lia. rewrite Nat2Z.id. set (c := nth i s 0).
-    cbn [nl_scan]. rewrite <- (skipn_nth_cons 0 s (S i)) by lia.
     replace (Z.of_nat i + 1)%Z with (Z.of_nat (S i)) by lia.
     pose proof (run_before_S s i ltac:(lia)) as Hrun. fold c in Hrun.
     destruct (c =? 46) eqn:Ec; cbn [negb].
@@ -326,7 +334,8 @@ Proof.
       rewrite (nl_loop2_spec fuel s off (Z.of_nat i) e fuel i) by lia.
       replace (Z.of_nat i - 1 - Z.of_nat (run_before s i) - Z.of_nat i)%Z
         with (Z.of_nat (run_before s i) * -1 - 1)%Z by lia.
-      rewrite rem2_parity. destruct (Nat.even (run_before s i)); cbn [negb].
+      rewrite rem2_parity. replace (Z.of_nat i + 1)%Z with (Z.of_nat (S i)) by lia.
+      destruct (Nat.even (run_before s i)); cbn [negb].
       * rewrite skipn_length. replace (length s - (length s - S i))%nat with (S i) by lia.
         tuple_eq.
       * rewrite IH by lia. rewrite Hrun.
@@ -337,7 +346,7 @@ Proof.
   - apply Z.ltb_ge in E.
     assert (Hs : nl_scan (run_before s i) (skipn i s) = None).
     { destruct (skipn i s) as [|c [|d t]] eqn:Es; [reflexivity|reflexivity|].
-      exfalso. assert (Hl : length (skipn i s) = 2 + length t)%nat by (rewrite Es; reflexivity).
+      exfalso. assert (Hl : (length (skipn i s) = 2 + length t)%nat) by (rewrite Es; reflexivity).
       rewrite skipn_length in Hl. lia. }
     rewrite Hs. tuple_eq.
 Qed.
@@ -505,3 +514,85 @@ Lemma gen_walkFailureZones visit fuel zone : zone <> [] -> (length zone + 1 < fu
 Proof.
   intros Hne Hf. unfold go_walkFailureZones_loop1_run. apply wfz_loop_spec; [exact Hne|lia|lia].
 Qed.
+
+(* ------------------------------------------------------------------ *)
+(* what the walks mean for hits: a zone-wide failure / a subtree cut found for a question whose name has the
+   labels ls was recorded for a label-level ancestor of ls — on the decoded route (text walk over what the
+   decoder prints, escapes included) and on the wire route alike *)
+From Sdns Require Import C03.Proofs_Store.
+
+Lemma name_wf_suffix pre t : name_wf (pre ++ t) = true -> name_wf t = true.
+Proof.
+  intros Hw. apply name_wf_shape in Hw. destruct Hw as [Hsh [Hb Hn]].
+  apply Forall_app in Hsh. apply Forall_app in Hb. apply shape_wf; [tauto|tauto|].
+  assert (Hle : (length (encode t) <= length (encode (pre ++ t)))%nat).
+  { clear. induction pre as [|l pre IH]; [cbn [app]; lia|].
+    cbn [app]. rewrite encode_cons. cbn [length]. rewrite app_length. lia. }
+  unfold len in *. lia.
+Qed.
+
+Lemma label_suffixes_canonical_present_lemma ls : name_wf ls = true ->
+  label_suffixes (canonical (present ls)) = map (fun t => fold (present t)) (removelast (tails ls)).
+Proof.
+  intros Hw. apply name_wf_shape in Hw. destruct Hw as [Hsh [Hb _]].
+  unfold canonical. rewrite fold_present by exact Hb.
+  rewrite label_suffixes_present_lemma by (apply fold_labels_nonempty, wf_labels_nonempty; exact Hsh).
+  unfold fold_labels. rewrite tails_map.
+  assert (Hrl : forall (A B : Type) (g : A -> B) (l : list A), removelast (map g l) = map g (removelast l)).
+  { intros A B g l. induction l as [|x [|y l] IH]; [reflexivity|reflexivity|].
+    cbn [map removelast] in *. f_equal. exact IH. }
+  rewrite Hrl, map_map.
+  apply map_ext_in. intros t Ht. symmetry. apply fold_present.
+  pose proof (Forall_tails _ _ Hb) as Ht2. rewrite Forall_forall in Ht2. apply Ht2.
+  assert (Hx : In t (removelast (tails ls) ++ [[]])) by (apply in_or_app; left; exact Ht).
+  rewrite <- (tails_snoc ls) in Hx. exact Hx.
+Qed.
+
+Lemma failure_zone_hit_label_ancestor_lemma fe ls qt qc cd p :
+  name_wf ls = true -> failure_hit_ok fe (present ls) qt qc cd p -> f_kind fe = FZone ->
+  exists pre t, ls = pre ++ t /\ f_zone fe = fold (present t) /\ f_zclass fe = qc.
+Proof.
+  intros Hw [_ [[Hk _]|[_ [Hin Hc]]]] Hz; [congruence|].
+  rewrite name_suffixes_canonical_present_lemma in Hin by exact Hw.
+  apply in_map_iff in Hin. destruct Hin as [t [Et Hin]].
+  destruct (in_tails_suffix _ _ Hin) as [pre E]. exists pre, t. repeat split; [exact E|symmetry; exact Et|exact Hc].
+Qed.
+
+Lemma failure_zone_hit_label_ancestor_wire_lemma fe ls qt qc cd :
+  name_wf ls = true -> failure_wire_hit_ok fe (encode ls) qt qc cd -> f_kind fe = FZone ->
+  exists pre t, ls = pre ++ t /\ fold (f_zone fe) = fold (present t) /\ f_zclass fe = qc.
+Proof.
+  intros Hw [_ [[Hk _]|[_ [Hc [zone [Hin Heq]]]]]] Hz; [congruence|].
+  rewrite wire_name_suffixes_encode_lemma in Hin by exact Hw.
+  apply in_map_iff in Hin. destruct Hin as [t [Et Hin]]. subst zone.
+  destruct (in_tails_suffix _ _ Hin) as [pre E]. exists pre, t. repeat split; [exact E| |exact Hc].
+  assert (Hwt : name_wf t = true) by (apply (name_wf_suffix pre); rewrite <- E; exact Hw).
+  rewrite wire_equals_pres_encode in Heq by exact Hwt. apply bytes_eqb_eq in Heq. symmetry. exact Heq.
+Qed.
+
+Lemma cut_hit_label_ancestor_lemma (c : cut) ls :
+  name_wf ls = true -> In (c_name c) (label_suffixes (canonical (present ls))) ->
+  exists pre t, ls = pre ++ t /\ t <> [] /\ c_name c = fold (present t).
+Proof.
+  intros Hw Hin. rewrite label_suffixes_canonical_present_lemma in Hin by exact Hw.
+  apply in_map_iff in Hin. destruct Hin as [t [Et Hin]].
+  assert (Hin2 : In t (removelast (tails ls) ++ [[]])) by (apply in_or_app; left; exact Hin).
+  rewrite <- (tails_snoc ls) in Hin2.
+  destruct (in_tails_suffix _ _ Hin2) as [pre E]. exists pre, t. repeat split; [exact E| |symmetry; exact Et].
+  (* the root is not among removelast (tails ls): every other tail is non-empty *)
+  intros ->. clear - Hin. induction ls as [|x ls IH]; [cbn in Hin; exact Hin|].
+  rewrite removelast_tails_cons in Hin. destruct Hin as [Hin|Hin]; [discriminate|exact (IH Hin)].
+Qed.
+
+(* non-vacuity: "a\.b.example." — the label `a.b` under example — has the ancestors example. and the root, and
+   NOT b.example.; the name printed with an escaped backslash in front of a real dot splits there *)
+Example ex_zone_walk_escaped_dot :
+  let ls := [[97; 46; 98]; [101; 120]] in      (* a.b | ex *)
+  name_wf ls = true /\
+  present ls = [97; 92; 46; 98; 46; 101; 120; 46] /\
+  name_suffixes (canonical (present ls)) = [[97; 92; 46; 98; 46; 101; 120; 46]; [101; 120; 46]; [46]] /\
+  wire_name_suffixes (encode ls) = [[3; 97; 46; 98; 2; 101; 120; 0]; [2; 101; 120; 0]; [0]] /\
+  label_suffixes (present ls) = [[97; 92; 46; 98; 46; 101; 120; 46]; [101; 120; 46]] /\
+  name_suffixes (present [[92]; [116]]) = [[92; 92; 46; 116; 46]; [116; 46]; [46]] /\
+  wfz_stop (fun z => negb (bytes_eqb z [98; 46; 101; 120; 46])) (present ls) = [46].
+Proof. vm_compute. repeat split; reflexivity. Qed.
